@@ -18,7 +18,7 @@ class Extracted:
         body, _ = X.insert_loop_contracts(self.body, loop_contracts, self.name)
         h = self.header
         if rename: h = re.sub(r"\b%s\b" % re.escape(self.name), rename, h, count=1)
-        return h + "\n" + body + "\n"
+        return getattr(self, "pre", "") + h + "\n" + body + "\n"
     def info(self):
         return dict(function=self.name, file=self.srcfile, sha_extracted=X.sha(self.header + self.body),
                     rules_fired=self.rule_counts, loops=[l["header"] for l in self.loops])
@@ -564,7 +564,8 @@ size_t strlen(const char*); int strncmp(const char*, const char*, size_t);
 int snprintf(char*, size_t, const char*, ...);
 /* cfitsio (assumed contract: specs/fitsmodel.py) */
 int fits_open_file(fitsfile** f, const char* name, int mode, int* status); int fits_open_diskfile(fitsfile** f, const char* name, int mode, int* status);
-int fits_create_file(fitsfile** f, const char* name, int* status);
+int fits_create_file(fitsfile** f, const char* name, int* status); int fits_close_file(fitsfile* f, int* status); int fits_delete_file(fitsfile* f, int* status);
+void vp_report_error(int status); int vp_remove(const char* path);
 bool read_fits_core(fitsfile* fits); void write_fits_core(fitsfile* fits);
 int fits_get_num_hdus(fitsfile* f, int* n, int* status); int fits_movabs_hdu(fitsfile* f, int n, int* type, int* status);
 int fits_get_img_dim(fitsfile* f, int* naxis, int* status); int fits_get_img_size(fitsfile* f, int maxdim, long* naxes, int* status);
@@ -614,6 +615,38 @@ def _fits_common(r, body, throw_repl):
     body = r.sub("R16_copy", r"std::copy\(", "vp_copy(", body)
     body = X.functional_casts(r, body)
     return body
+
+def file_guard(r, body):
+    """R30: `struct fits_cleanup{ fitsfile* fits; fits_cleanup(fitsfile* f):fits(f){} [int close(){B1}] ~fits_cleanup(){B2} } cleanup(fits);`
+    -> `vp_cleanup_fits = fits;` plus C functions vp_cleanup_close / vp_cleanup_dtor holding B1 / B2 verbatim (member `fits`
+    renamed); `cleanup.close()` -> `vp_cleanup_close()`.  The caller spells the destructor out at every exit."""
+    blank = X.blank_comments_and_strings(body)
+    m = re.search(r"struct fits_cleanup\s*\{", blank)
+    if not m: raise ExtractionError("write_fits: file guard `struct fits_cleanup` not found")
+    b0 = blank.index("{", m.start()); b1 = X.match_close(blank, b0, "{", "}")
+    m2 = re.match(r"\s*cleanup\(fits\);", blank[b1 + 1:])
+    if not m2: raise ExtractionError("write_fits: file guard is not instantiated as `cleanup(fits)`")
+    inner = body[b0 + 1:b1]; iblank = blank[b0 + 1:b1]
+    if not re.search(r"fitsfile\*\s*fits;\s*fits_cleanup\(fitsfile\*\s*\w+\):fits\(\w+\)\{\}", inner): raise ExtractionError("write_fits: unexpected members / constructor in the file guard")
+    def method(sig):
+        mm = re.search(sig, iblank)
+        if not mm: return None
+        c0 = iblank.index("{", mm.start()); c1 = X.match_close(iblank, c0, "{", "}")
+        return inner[c0:c1 + 1]
+    dtor = method(r"~fits_cleanup\(\)\s*\{"); close = method(r"int\s+close\(\)\s*\{")
+    if dtor is None: raise ExtractionError("write_fits: file guard has no destructor")
+    def conv(t):
+        t = re.sub(r"(?<![A-Za-z0-9_.>])fits(?![A-Za-z0-9_(])", "vp_cleanup_fits", t)
+        t = re.sub(r"(?<![A-Za-z0-9_])close\(\)", "vp_cleanup_close()", t)
+        t = re.sub(r"fits_report_error\(stderr,\s*(\w+)\)", r"vp_report_error(\1)", t)
+        return t
+    helpers = "fitsfile* vp_cleanup_fits;\n"
+    if close is not None: helpers += "int vp_cleanup_close(void)\n" + conv(close) + "\n"
+    helpers += "void vp_cleanup_dtor(void)\n" + conv(dtor) + "\n"
+    r.counts["R30_file_guard"] = 1 + (1 if close is not None else 0)
+    body = body[:m.start()] + "vp_cleanup_fits = fits;" + body[b1 + 1 + m2.end():]
+    body = re.sub(r"(?<![A-Za-z0-9_])cleanup\.close\(\)", "vp_cleanup_close()", body)
+    return body, helpers
 
 def _no_cxx_left(name, body, extra=()):
     for bad in ("std::", "this->", "unique_ptr", "allocate<", ".size()", ".begin()", ".data()", ".get()", "throw", "ostringstream") + tuple(extra):
@@ -671,19 +704,30 @@ def fits_functions():
     body = r.sub("R6_numeric_limits", r"std::numeric_limits<long>::max\(\)", "LONG_MAX", body, must_fire=True)
     _no_cxx_left("write_fits_core", body)
     out["write_fits_core"] = Extracted("write_fits_core", "void write_fits_core(fitsfile* fits)", body, r, FITSIO_H, X.find_loops(body))
-    # --- disk wrappers (emptiness guards, open / create); the RAII guard that closes the file is dropped (R25)
+    # --- disk wrappers (emptiness guards, open / create); read_fits: the RAII guard that closes the file is dropped (R25);
+    #     write_fits: the guard is kept, its member functions become C functions run at every exit (R30)
     for wname, hdr, ret in (("read_fits", "bool read_fits(const char* filePath)", "false"), ("write_fits", "void write_fits(const char* filePath)", "")):
         start, header, body, end = X.find_function(s, r"splinetable<Alloc>::%s\s*\(" % wname)
         r = X.Rules(); r.counts["R1_member"] = 1
+        helpers = ""
+        if wname == "write_fits": body, helpers = file_guard(r, X.strip_comments(body))
         body = _fits_common(r, body, "{ vp_thrown = 1; return %s; }" % ret)
+        if wname == "write_fits":
+            body = r.sub("R18_c_str", r"std::remove\(filePath\.c_str\(\)\)", "vp_remove(filePath)", body)
+            r.counts["R25_raii_guard"] = 1
         for rule in ("R7_throw", "R25_raii_guard"):
             if not r.counts.get(rule): raise ExtractionError("must-fire rule %s did not fire in %s" % (rule, wname))
         body = r.sub("R18_c_str", r"\(\"!\"\+filePath\)\.c_str\(\)", "filePath", body)            # "!" = overwrite an existing file (modelled by the disk)
         body = r.sub("R18_c_str", r"filePath\.c_str\(\)", "filePath", body)
         body = r.sub("R29_path_argument", r"read_fits_core\(fits,\s*filePath\)", "read_fits_core(fits)", body)
-        if wname == "write_fits": body = r.sub("R29_exception_exit", r"write_fits_core\(fits\);", "write_fits_core(fits); if (vp_thrown) return;", body, must_fire=True)
+        if wname == "write_fits":
+            body = r.sub("R29_exception_exit", r"write_fits_core\(fits\);", "write_fits_core(fits); if (vp_thrown) return;", body, must_fire=True)
+            # the guard's destructor runs at every exit AFTER its construction (returns, including those standing for exceptions, and the end)
+            k0 = body.index("vp_cleanup_fits = fits;"); head, tail = body[:k0], body[k0:]
+            tail = r.sub("R30_guard_exit", r"(?<![A-Za-z0-9_])return\s*;", "{ vp_cleanup_dtor(); return; }", tail, must_fire=True)
+            k = tail.rstrip().rfind("}"); body = head + tail[:k] + "vp_cleanup_dtor();\n" + tail[k:]
         _no_cxx_left(wname, body)
-        out[wname] = Extracted(wname, hdr, body, r, FITSIO_H, X.find_loops(body))
+        out[wname] = Extracted(wname, hdr, body, r, FITSIO_H, X.find_loops(body)); out[wname].pre = helpers
     # --- size model
     start, header, body, end = X.find_function(s, r"splinetable<Alloc>::estimateMemory\s*\(")
     r = X.Rules(); r.counts["R1_member"] = 1
